@@ -47,7 +47,12 @@ fn evaluate(case: &Case) -> EvalOut {
     for o in &base.obs {
         match o.outcome {
             Outcome::Diverged => return EvalOut::Discarded("baseline_diverged"),
-            Outcome::Panic(_) => return EvalOut::Discarded("baseline_panic_outside_property"),
+            Outcome::Panic(_) => {
+                if std::env::var("VERIF_DEBUG_DISCARD").is_ok() {
+                    eprintln!("baseline panic: {}", describe(o));
+                }
+                return EvalOut::Discarded("baseline_panic_outside_property");
+            }
             _ => {}
         }
     }
